@@ -1,3 +1,9 @@
 import MidoProofs.SrcTie.Tok
+import MidoProofs.SrcTie.Syx
 #print axioms Mido.src_feed_byte
 #print axioms Mido.src_feed
+#print axioms Mido.src_fromhex
+#print axioms Mido.fromHex_bytes
+#print axioms Mido.src_syx_loop
+#print axioms Mido.src_fresh_feed
+#print axioms Mido.src_read_syx
